@@ -396,7 +396,7 @@ func VerifC16DeliverEnforces() {
 	}
 }
 
-// verif:harness props=C16 tier=quick native=yes weight=10
+// verif:harness props=C16,C06 tier=quick native=yes weight=10
 // verif:bounds redirect hop URL/policy/resolver: quick the 7 representative verdicts of VerifC16DeliverEnforces, thorough the whole VerifC16Policy space; 0..11 earlier hops; the previous hop is on the same host, on another host, or absent; redirects enabled or disabled
 func VerifC16Redirects() {
 	c := hEnforcementCase()
